@@ -69,10 +69,21 @@ theorem run_accounting (s : Sys F) (h : Inv s) (evs : List Ev) (hnr : NoReload e
       · rw [g.1, List.nil_append] at d1
         rw [d1]; simp [List.map_map, Function.comp_def]
       · rw [g.2, d2, List.filter_append, List.map_append, dep_true]; simp
-    · refine ⟨(s.links[i].queue ++ appended s ev i).map (fun x => (x, false)) ++ dep1, ?_, ?_⟩
-      · rw [g.1, List.nil_append] at d1
-        rw [d1]; simp [List.map_map, Function.comp_def]
-      · rw [g.2.1, d2, List.filter_append, List.map_append, dep_false, List.nil_append, List.nil_append]
+    · -- a send that failed part-way: the first `k` departed items are flagged "wire", the rest "discarded"
+      obtain ⟨hq', ⟨k, hk⟩, -⟩ := g
+      refine ⟨((s.links[i].queue ++ appended s ev i).take k).map (fun x => (x, true)) ++
+          ((s.links[i].queue ++ appended s ev i).drop k).map (fun x => (x, false)) ++ dep1, ?_, ?_⟩
+      · rw [hq', List.nil_append] at d1
+        have hsplit := List.take_append_drop k (s.links[i].queue ++ appended s ev i)
+        have e : (((s.links[i].queue ++ appended s ev i).take k).map (fun x => (x, true)) ++
+            ((s.links[i].queue ++ appended s ev i).drop k).map (fun x => (x, false)) ++ dep1).map (·.1) =
+            (s.links[i].queue ++ appended s ev i).take k ++ (s.links[i].queue ++ appended s ev i).drop k ++
+              dep1.map (·.1) := by
+          simp only [List.map_append, List.map_map, Function.comp_def, List.map_id']
+        rw [d1, e, hsplit]; simp
+      · rw [hk, d2]
+        simp only [List.filter_append, List.map_append, dep_true, dep_false, bytesOf_append, List.append_nil]
+        simp [bytesOf, List.map_take]
 
 /-- The arrival log of every link is a subsequence of the client datagrams of the run. -/
 theorem arrivals_sublist (s : Sys F) (evs : List Ev) (i : Nat) : (arrivals s evs i).Sublist (clientItems evs) := by
